@@ -85,6 +85,8 @@ pub enum DropV {
     EpEarly,
     /// Server drops the first Incoming without accepting
     IncomingDropped,
+    /// the server closes its endpoint while it still holds an `Incoming`, and accepts that afterwards
+    IncomingAfterClose,
     /// Client (S1w): at the first pending write, drop the write future, then the SendStream
     SendAfterCancelledWrite,
 }
@@ -100,6 +102,7 @@ impl DropV {
             DropV::CliConnInsteadOfClose => json!("cli_conn_instead_of_close"),
             DropV::EpEarly => json!("ep_early"),
             DropV::IncomingDropped => json!("incoming_dropped"),
+            DropV::IncomingAfterClose => json!("incoming_after_close"),
             DropV::SendAfterCancelledWrite => json!("send_after_cancelled_write"),
         }
     }
@@ -110,6 +113,7 @@ impl DropV {
                 "cli_conn_instead_of_close" => Some(DropV::CliConnInsteadOfClose),
                 "ep_early" => Some(DropV::EpEarly),
                 "incoming_dropped" => Some(DropV::IncomingDropped),
+                "incoming_after_close" => Some(DropV::IncomingAfterClose),
                 "send_after_cancelled_write" => Some(DropV::SendAfterCancelledWrite),
                 _ => None,
             };
@@ -516,10 +520,19 @@ async fn s1_client(o: Arc<Obs>, ep: Endpoint, cc: ClientConfig, saddr: SocketAdd
         Err(e) => return o.fail("O1:connect-call", format!("connect_with: {e:?}")),
     };
     let conn = aw!(o, "cli.connect", connecting);
-    if o.drop == DropV::IncomingDropped {
+    if o.drop == DropV::IncomingDropped || o.drop == DropV::IncomingAfterClose {
         match conn {
             Err(e) => o.note(&format!("refused_connect_result:{}", cerr(&e)), 1),
-            Ok(_) => o.fail("O6:incoming-drop", "server dropped the Incoming but connect succeeded".into()),
+            Ok(c) => {
+                if o.drop == DropV::IncomingDropped {
+                    o.fail("O6:incoming-drop", "server dropped the Incoming but connect succeeded".into());
+                } else {
+                    // the handshake may complete on the wire before the server's close arrives; the
+                    // connection must then end with the endpoint's close
+                    let e = aw!(o, "cli.closed", c.closed());
+                    o.note(&format!("refused_connect_result:closed:{}", cerr(&e)), 1);
+                }
+            }
         }
         let e = ep.take().unwrap();
         op!(o, "cli.wait_idle", e.wait_idle());
@@ -1647,6 +1660,20 @@ async fn accept_loop(o: Arc<Obs>, ep: Endpoint) {
         if o.drop == DropV::IncomingDropped && n == 0 {
             drop(inc);
             ep.close(VarInt::from_u32(77), b"ep");
+            n += 1;
+            continue;
+        }
+        if o.drop == DropV::IncomingAfterClose && n == 0 {
+            // shutdown races with the accept loop: the endpoint is closed first, the Incoming it had
+            // already handed out is accepted afterwards - that must not produce a live connection
+            ep.close(VarInt::from_u32(77), b"ep");
+            match aw!(o, "srv.late_accept", inc.into_future()) {
+                Ok(conn) => {
+                    o.fail("O6:accepted-after-endpoint-close", format!("an Incoming accepted after Endpoint::close() became an established connection (close_reason {:?})", conn.close_reason().map(|e| cerr(&e))));
+                    drop(conn);
+                }
+                Err(e) => o.note(&format!("late_accept_result:{}", cerr(&e)), 1),
+            }
             n += 1;
             continue;
         }
